@@ -111,6 +111,8 @@ func main() {
 			os.Exit(runParent(ck, tier, seed, only))
 		}
 		runWorkerMain(ck, tier, seed, only, out, dir, verbose)
+	case "childread":
+		childRead(args)
 	case "replay":
 		if len(args) < 1 {
 			usage()
